@@ -14,7 +14,7 @@
     Nothing else is assumed about [iso]: in particular the theorems cover the transitivity shortcut of the code
     (an item is compared only with the FIRST member of each class / with one stored template per class). *)
 From Coq Require Import List NArith ZArith Bool Arith Permutation.
-From SK Require Import lib.LGraph lib.C13_Partition model.C13_Model model.C13_Trace proof.C13_Proof proof.C13_More proof.C13_Iso proof.C13_Templates proof.C13_Clusters proof.C13_Before proof.C13_Trace proof.C13_TraceExact proof.C13_Raw.
+From SK Require Import lib.LGraph lib.C13_Partition model.C13_Model model.C13_Trace model.C13_Opts proof.C13_Proof proof.C13_More proof.C13_Iso proof.C13_Templates proof.C13_Clusters proof.C13_Before proof.C13_Trace proof.C13_TraceExact proof.C13_Raw proof.C13_Opts.
 Import ListNotations.
 
 (** 1. GraphCluster.fit / iterative_cluster: every item gets exactly one class (the list of classes has the length
@@ -558,3 +558,38 @@ Theorem C13_incremental_raw :
    ~ In cl cs /\ snd (lib_check iso mode (mk_item c y) ts) = ts ++ [(mk_item c y, cl)]).
 Proof. exact incremental_raw. Qed.
 Print Assumptions C13_incremental_raw.
+
+(** ** (round 5, wave 4) the optional matcher arguments as OPTIONS of the model (model/C13_Opts.v; the correspondence runs every
+    history through [runR] -> [playR] -> [stepR]).  [msrc]: a matcher argument is omitted / None ([MNone]), the object's own
+    matcher handed in ([MObj]) or a matcher the caller built from another configuration [cm] ([MExplicit]).
+    BatchCluster.lib_check falls back to the object's own matcher PER ARGUMENT (nodeMatch or self.nodeMatch, edgeMatch or
+    self.edgeMatch): the node labels come from the caller's matcher iff nodeMatch was given, the bond attribute from the caller's
+    matcher iff edgeMatch was given -- so with only nodeMatch given the object's bond attribute is still compared, with only
+    edgeMatch given the object's node labels are; and the test always compares both sides. *)
+Theorem C13_lib_check_fallback_per_argument :
+  forall (c cm : ccfg) (ns es : msrc),
+  let ce := mix_cfg c cm (fallback ns) (fallback es) in
+  (cc_names ce = match ns with MExplicit => cc_names cm | _ => cc_names c end) /\
+  (cc_defs ce = match ns with MExplicit => cc_defs cm | _ => cc_defs c end) /\
+  (cc_edge ce = match es with MExplicit => cc_edge cm | _ => cc_edge c end).
+Proof. exact lib_check_fallback_per_argument. Qed.
+Print Assumptions C13_lib_check_fallback_per_argument.
+
+Theorem C13_lib_check_options :
+  forall (c cm : ccfg) (mode : attr_mode) (rpool : list ritem) (ts : list template) (i : nat) (ns es : msrc),
+  stepR c cm mode rpool ts (RLibCheck i ns es) =
+  let ce := mix_cfg c cm (fallback ns) (fallback es) in
+  stepx (cc_defs ce) mode (map (mk_item ce) rpool) (map (reproj ce rpool) ts) (OBase (OLibCheck i)).
+Proof. exact lib_check_always_labelled. Qed.
+Print Assumptions C13_lib_check_options.
+
+(** GraphCluster.iterative_cluster(rules, attributes, nodeMatch, edgeMatch) has NO fallback: a side whose matcher is None is not
+    compared at all ([given], [item_iso2]); with both given it is the labelled test, with none the topology-only test *)
+Theorem C13_iterative_cluster_no_fallback :
+  forall (c cm : ccfg),
+  (forall defs x y, item_iso2 true true defs x y = item_iso true defs x y) /\
+  (forall defs x y, item_iso2 false false defs x y = item_iso false defs x y) /\
+  given MNone = false /\ given MObj = true /\ given MExplicit = true /\
+  cc_names (mix_cfg c cm MNone MObj) = [] /\ cc_edge (mix_cfg c cm MExplicit MNone) = 0%N.
+Proof. exact gc_iter_no_fallback. Qed.
+Print Assumptions C13_iterative_cluster_no_fallback.
